@@ -355,6 +355,40 @@ def check_cmp(model, rep, sx: SX, tables):
     rep.analysed['comparison_instances'] = n_inst
 
 
+def check_ctor_stores(model, rep, sx, R='C05.ctor'):
+    """the evaluator models quantity construction natively (value*F[unit]); so the constructors themselves are decided
+    here: every accepting path stores exactly the value and the unit it was given, in the fields the `value` / `unit`
+    properties (and the class's own private reads) return"""
+    from sa.sx import Uv
+    for kind in sorted(model.quantity_kinds()):
+        m = model.member(kind, '__init__')
+        names = [a.arg for a in m.node.args.args[1:]]
+        if names[:2] != ['value', 'unit']:
+            rep.violation(R, f'{kind}.__init__', f'constructor parameters are {names}, specified (value, unit)', m.loc)
+            continue
+        try:
+            outs = sx.run(m.node, m.module, kind, Ov('self', kind, True), {'value': N(Rat.atom('v'), 'float'), 'unit': Uv(U(sym='u'))})
+        except CannotDecide as e:
+            rep.cannot(R, f'{kind}.__init__', str(e), m.loc)
+            continue
+        done = [o for o in outs if o.kind in ('fall', 'return')]
+        ok, why = bool(done), 'no accepting path'
+        for o in done:
+            st = {e[2]: e[3] for e in o.state.effects if e[0] == 'store' and e[1] == 'self'}
+            for prop, want in (('value', 'v'), ('unit', 'unit-of(u)')):
+                fld = sx.trivial_getter_field(kind, prop)
+                own = f'_{kind}__{prop}'
+                need = {fld} | ({own} if any(k == own for k in st) or own == fld else set())
+                if fld is None:
+                    ok, why = False, f'the {prop} property does not return a stored field'
+                    continue
+                for f in need | {k for k in st if k.endswith(f'__{prop}')}:
+                    if f not in st or sx.show(st[f]) != want:
+                        ok, why = False, f'field {f} is {"not stored" if f not in st else "stored as `" + sx.show(st[f])[:40] + "`"}; specified the {prop} argument'
+        rep.decide(ok, R, f'{kind}.__init__', why, loc=m.loc)
+        rep.inspect()
+
+
 def check(model, rep):
     rep.explain('C05: (1) all unit factors, folded exactly over Q[pi], against an independent compositional SI '
                 'oracle (exhaustive); (2) every to() implementation evaluated symbolically: SI magnitude preserved '
@@ -366,6 +400,7 @@ def check(model, rep):
     sx = SX(model, tables)
     sxm.POSITIVE_ATOMS.clear()
     check_tables(model, rep, tables)
+    check_ctor_stores(model, rep, sx)
     check_to(model, rep, sx, tables)
     check_mirror(model, rep, sx)
     check_cmp(model, rep, sx, tables)
